@@ -593,11 +593,19 @@ fn run_bin(case: &str, ctx: &mut Ctx, drv: &mut Driver, rep: &mut Report) {
     let ml_args: Vec<&str> = if ml { vec!["-U"] } else { vec![] };
     let pat: &str = if ml { &mlpat } else { pat };
     if ml { rep.branch("bin:multi-line"); }
-    let mut rcmd = Command::new(&ctx.rg);
     // (with binary detection on, the reference is searched as a whole, like the transcoded text is: where a reader that
     // delivers the first three bytes on their own looks for the NUL is the strategy-dependent heuristic of C02/C14)
+    // every case also with the pattern that reports every line: the whole searched text is compared
+    let all_pat: &str = if ml { "[\\s\\S]?" } else { "" };
+    let first_pat: &str = pat;
+    let mut any_output = false;
+    let mut reported = false;
+    for pat in [first_pat, all_pat] {
+    if reported || (pat == all_pat && first_pat == all_pat) { continue; }
+    let mut rcmd = Command::new(&ctx.rg);
     rcmd.current_dir(dir.join("ref")).args(&base).args(["-E", "none", if bd { "--mmap" } else { "--no-mmap" }, "-j1"]).args(&ml_args).arg(pat).arg("f.txt");
     let reference_out = run_cmd(&mut rcmd, None);
+    any_output |= !reference_out.stdout.is_empty();
     for mmap in ["--mmap", "--no-mmap", "stdin"] {
         let mut cmd = Command::new(&ctx.rg);
         cmd.current_dir(dir.join("enc")).args(&base).arg("-j1");
@@ -625,10 +633,12 @@ fn run_bin(case: &str, ctx: &mut Ctx, drv: &mut Driver, rep: &mut Report) {
                     show(&out.stdout[..out.stdout.len().min(160)]), out.exit(),
                     show(&reference_out.stdout[..reference_out.stdout.len().min(160)]), reference_out.exit()),
             });
+            reported = true;
             break;
         }
     }
-    if !reference_out.stdout.is_empty() { rep.nontrivial(case); }
+    }
+    if any_output { rep.nontrivial(case); }
     remove_tree(&dir);
 }
 
@@ -735,7 +745,7 @@ fn main() {
          windows-1252 bytes; shift_jis text (valid and with unpaired leads / invalid trails; once every lead/trail pair); texts mix ASCII, BMP, astral characters, U+FEFF, and (malformed stream, 50%) lone \
          and reversed surrogates / invalid UTF-8 (stray and missing continuations, overlong, encoded surrogates, > U+10FFFF). \
          Configurations auto / none / utf-8 / utf-16le / utf-16be / latin1 / shift_jis, matching or not, the label spelled as any of its Encoding Standard aliases in any letter case (1/3). bin also: --null-data with the text's line feeds turned into U+0000 (1/5), binary detection left on (no -a; half with U+0000 in the text; reference searched as a whole). other: 15 further encodings (gb18030, gbk, big5, euc-jp, euc-kr, koi8-r/u, windows-1250/1251/874, iso-8859-2/15, macintosh, ibm866, x-user-defined) on valid text from hand-written tables, differential only. lib: fragment sizes 1, 2, 3, 7, \
-         mixed, 8191, 8192, 8193, whole; line-by-line and multi-line (matcher that may match the terminator, so the multi-line strategy really runs); small and 10-100 KB inputs. bin: --mmap, --no-mmap and stdin, 7 patterns, half of them as multi-line searches (-U, pattern may match the terminator). \
+         mixed, 8191, 8192, 8193, whole; line-by-line and multi-line (matcher that may match the terminator, so the multi-line strategy really runs); small and 10-100 KB inputs. bin: --mmap, --no-mmap and stdin, 9 patterns and always the pattern that reports every line, half of them as multi-line searches (-U, pattern may match the terminator). \
          Non-trivial: lib: more than 3 fragments of a UTF-16 or malformed input; bin: the reference run prints something.",
     );
     let rg = args.rg.clone().expect("C17 needs --rg");
